@@ -101,7 +101,7 @@ def _spec(sysm, lin, q0, u0):
     return np.asarray(A).view(np.ndarray), f, rhs_c
 
 
-def _cic(mode, friction, nF=2, layout=None):
+def _cic(mode, friction, nF=2, layout=None, both_closed=False):
     """layout = (1, 1): an OPEN frictional contact assembled before a CLOSED frictional one (one friction direction each):
     the index bookkeeping between the active sets and the global arrays is exercised"""
 
@@ -129,9 +129,13 @@ def _cic(mode, friction, nF=2, layout=None):
             qc, uc = sysm.step_callback(sysm.t0, sysm.q0, sysm.u0)
             with npshim.active(True):
                 closed = list(sysm.g_N(sysm.t0, qc)) + list(sysm.g_N_dot(sysm.t0, qc, uc))
-                if layout is not None:
+                if layout is not None and not both_closed:
                     k.assume(sysm.g_N(sysm.t0, qc)[0] > 1)  # contact 0 is open
                     closed = [sysm.g_N(sysm.t0, qc)[1], sysm.g_N_dot(sysm.t0, qc, uc)[1]]
+                if both_closed:
+                    gF0 = sysm.gamma_F(sysm.t0, qc, uc)
+                    k.assume(gF0[0] > 1)  # contact 0 slides
+                    k.assume(S._coerce(gF0[1]) == 0)  # contact 1 sticks
                 for v in closed:
                     k.assume(v <= ATOL)
                     k.assume(v >= -ATOL)
@@ -200,7 +204,17 @@ def _cic(mode, friction, nF=2, layout=None):
                 k.prove_le(f"la_N0[{i}] >= 0", 0, la_N0[i])
             if sysm.nla_F and layout is None:
                 k.prove_le("friction force inside the Coulomb disk: |la_F0|^2 <= (mu la_N0)^2", la_F0 @ la_F0, (sysm.mu * la_N0[0]) ** 2)
-            if layout is not None:
+            if both_closed:
+                gF = sysm.gamma_F(t0, q0, u0)
+                gFd = sysm.gamma_F_dot(t0, q0, u0, helper.prev["x1"][:nu])  # slip acceleration the projection was evaluated with
+                for i in (0, 1):
+                    k.prove_le(f"contact {i}: friction force inside ITS Coulomb disk", la_F0[i] * la_F0[i], (sysm.mus[i] * la_N0[i]) ** 2)
+                fixed0 = S._coerce(la_F0[0]) == S._coerce(helper.prev["la_F1"][0])
+                fixed1 = S._coerce(la_F0[1]) == S._coerce(helper.prev["la_F1"][1])
+                k.prove("sliding contact, projection fixed point => friction opposes ITS slip with |la_F| = mu la_N", fixed0.implies((S._coerce(la_F0[0] * gF[0]) <= 0) & (S._coerce(la_F0[0] * la_F0[0]) == S._coerce((sysm.mus[0] * la_N0[0]) ** 2))))
+                accel = (S._coerce(gFd[1]) > ATOL) | (S._coerce(gFd[1]) < -ATOL)
+                k.prove("STICKING contact next to a sliding one, projection fixed point, slip acceleration != 0 => friction opposes the slip acceleration with |la_F| = mu la_N (Coulomb on acceleration level)", (fixed1 & accel).implies((S._coerce(la_F0[1] * gFd[1]) <= 0) & (S._coerce(la_F0[1] * la_F0[1]) == S._coerce((sysm.mus[1] * la_N0[1]) ** 2))))
+            elif layout is not None:
                 k.prove_eq("the open contact carries no normal force", la_N0[0], 0)
                 k.prove_eq("the open contact carries no friction force", la_F0[0], 0)
                 k.prove_le("closed contact: friction force inside ITS Coulomb disk |la_F|^2 <= (mu_1 la_N[1])^2", la_F0[1] * la_F0[1], (sysm.mus[1] * la_N0[1]) ** 2)
@@ -214,7 +228,7 @@ def _cic(mode, friction, nF=2, layout=None):
             la_prev = helper.prev["la_N1"]
             ud_prev = helper.prev["x1"][:nu]
             gNdd = sysm.g_N_ddot(t0, q0, u0, ud_prev)
-            active = list(range(sysm.nla_N)) if layout is None else [1]  # global indices of the closed contacts; la_prev is indexed by position in this list
+            active = list(range(sysm.nla_N)) if (layout is None or both_closed) else [1]  # global indices of the closed contacts; la_prev is indexed by position in this list
             fixed = S.conj([S._coerce(la_N0[i]) == la_prev[j] for j, i in enumerate(active)])
             for i in active:
                 k.prove(f"projection fixed point => g_N_ddot[{i}] >= 0", fixed.implies(S._coerce(gNdd[i]) >= 0))
@@ -229,6 +243,9 @@ for _mode in ("entry", "iter", "exhausted"):
     contract("C16", f"consistent_initial_conditions[friction=True,directions=1]/{_mode}", samples=0, replayable=False, timeout=60, max_paths=4000)(_cic(_mode, True, 1))
     contract("C16", f"consistent_initial_conditions[friction=True,directions=2]/{_mode}", samples=0, replayable=False, timeout=60, max_paths=6000, tiers=("thorough",))(_cic(_mode, True, 2))
 contract("C16", "consistent_initial_conditions[open frictional contact before a closed one]/iter", samples=0, replayable=False, timeout=60, max_paths=6000)(_cic("iter", True, 1, layout=(1, 1)))
+# the variant `both_closed=True` (a sliding contact next to a sticking one, both closed) verifies, but needs 5760 paths /
+# 22 500 obligations / 25 min: it is not registered; that mix is exercised by the bounded native scenes ("pushed" balls)
+# contract("C16", "consistent_initial_conditions[sliding contact next to a sticking one]/iter", ...)(_cic("iter", True, 1, layout=(1, 1), both_closed=True))
 
 
 # --------------------------------------------------------------------------- bounded native mechanisms
@@ -287,6 +304,13 @@ def _contact_checks(system, tol=1e-6):
                 slip = np.linalg.norm(gF[f])
                 if slip > 1e-6:
                     out[f"sliding contact {n}: la_F = -mu la_N gamma_F/|gamma_F|"] = float(np.linalg.norm(laF[f] + mu * laN[n] * gF[f] / slip)) / (1 + mu * laN[n])
+                else:
+                    # sticking contact: Coulomb's law on acceleration level - it stays stuck (gamma_F_dot = 0, force inside the
+                    # disk) or starts to slide against the maximal friction force
+                    gFd = system.gamma_F_dot(t0, q0, u0, system.u_dot0)[f]
+                    acc = float(np.linalg.norm(gFd))
+                    if acc > 1e-6:
+                        out[f"sticking contact {n} starts to slide: la_F = -mu la_N gamma_F_dot/|gamma_F_dot|"] = float(np.linalg.norm(laF[f] + mu * laN[n] * gFd / acc)) / (1 + mu * laN[n])
     return out
 
 
@@ -328,13 +352,14 @@ def _scenes(rng):
         return sysm
 
     def balls(kinds, mu=0.3):
-        """kinds: list of 'open' | 'rest' | 'slide' | 'penetrating' | 'approaching'"""
+        """kinds: list of 'open' | 'rest' | 'pushed' (at rest, pushed sideways with less than the friction limit: friction has
+        to hold it) | 'slide' | 'penetrating' | 'approaching'"""
         sysm = System()
         parts = []
         for i, kind in enumerate(kinds):
             R = rng.uniform(0.1, 0.3)
             x = 2.0 * i
-            z = {"open": R + 0.5, "rest": R, "slide": R, "penetrating": R - 0.05, "approaching": R}[kind]
+            z = {"open": R + 0.5, "rest": R, "pushed": R, "slide": R, "penetrating": R - 0.05, "approaching": R}[kind]
             v = np.zeros(3)
             if kind == "slide":
                 v[:2] = rng.normal(size=2)
@@ -343,6 +368,8 @@ def _scenes(rng):
             m = rng.uniform(0.5, 2.0)
             body = Ball(RigidBody)(radius=R, density=m / (4 / 3 * np.pi * R**3), subdivisions=1, q0=np.array([x, 0, z, 1, 0, 0, 0.0]), u0=np.concatenate([v, np.zeros(3)]), name=f"ball{i}")
             parts += [body, Force(np.array([0, 0, -9.81 * m]), body, name=f"grav{i}"), Sphere2Plane(sysm.origin, body, mu=mu, r=R, e_N=0, e_F=0, name=f"contact{i}")]
+            if kind == "pushed":
+                parts.append(Force(0.5 * mu * 9.81 * m * np.array([np.cos(0.7 * i + 0.3), np.sin(0.7 * i + 0.3), 0.0]), body, name=f"push{i}"))
         sysm.add(*parts)
         return sysm
 
@@ -353,6 +380,8 @@ def _scenes(rng):
     yield "ball sliding on a plane", lambda: balls(["slide"]), True
     yield "open contact listed before a sliding one", lambda: balls(["open", "slide"]), True
     yield "sliding contact listed before an open one and a resting one", lambda: balls(["slide", "open", "rest"]), True
+    yield "sliding contact next to a contact that friction has to hold at rest", lambda: balls(["slide", "pushed"]), True
+    yield "contact held at rest by friction next to a sliding one and an open one", lambda: balls(["pushed", "open", "slide"]), True
     yield "joint violated on position level", lambda: pendulum(False, inconsistent="position"), False
     yield "joint violated on velocity level", lambda: pendulum(False, inconsistent="velocity"), False
     yield "penetrating contact", lambda: balls(["penetrating"]), False
@@ -400,7 +429,7 @@ def b_native(tier, seed):
         if f["what"] not in seen:
             seen.add(f["what"])
             out.append(f)
-    return {"cases": cases, "distinct": cases, "failures": out[:12], "bound": f"{reps} random instances of 11 real mechanisms (pendulum with joint/actuator/compliance, balls on a plane: open, resting, sliding, penetrating, approaching), residual tolerance 1e-6"}
+    return {"cases": cases, "distinct": cases, "failures": out[:12], "bound": f"{reps} random instances of 13 real mechanisms (pendulum with joint/actuator/compliance, balls on a plane: open, resting, sliding, penetrating, approaching), residual tolerance 1e-6"}
 
 
 # --------------------------------------------------------------------------- several contacts: index bookkeeping
